@@ -74,13 +74,13 @@ CXX_FLAGS = {
 }
 
 
-def build_harness(name, vinfo, rc=True, interpose=False, extra='', libs='-lcrypto -lgcrypt -ldl -lpthread', srcs=None, fuzzer=False, csrcs=None):
+def build_harness(name, vinfo, rc=True, interpose=False, extra='', libs='-lcrypto -lgcrypt -ldl -lpthread', srcs=None, fuzzer=False, csrcs=None, no_variant_include=False):
     """Compile harness/<name>.cpp against a library variant.  Returns binary path."""
     variant = vinfo['variant']
     cxx, flags = CXX_FLAGS[variant]
     if fuzzer:
         flags += ' -fsanitize=fuzzer'
-    key = hashlib.sha256(json.dumps([harness_hash(), vinfo['dir'], name, rc, interpose, extra, libs, flags, srcs, csrcs, 4]).encode()).hexdigest()[:16]
+    key = hashlib.sha256(json.dumps([harness_hash(), vinfo['dir'], name, rc, interpose, extra, libs, flags, srcs, csrcs, no_variant_include, 5]).encode()).hexdigest()[:16]
     hdir = os.path.join(vbuild.BUILD, 'h-%s-%s-%s' % (name, 'rc' if rc else 'norc', key))
     binp = os.path.join(hdir, name)
     import fcntl
@@ -108,7 +108,10 @@ def build_harness(name, vinfo, rc=True, interpose=False, extra='', libs='-lcrypt
             os.makedirs(gen, exist_ok=True)
             subprocess.check_call([sys.executable, os.path.join(VERIF, 'bin', 'gen_pi.py'), os.path.join(gen, 'pi_blowfish.inc.tmp')])
             os.rename(os.path.join(gen, 'pi_blowfish.inc.tmp'), os.path.join(gen, 'pi_blowfish.inc'))
-        cmd += ['-I' + vinfo['include'], '-I' + HARNESS, '-I' + gen, '-I' + os.path.join(vinfo['repo'], 'lib')]
+        if no_variant_include:
+            cmd += ['-I' + HARNESS, '-I' + gen]   # client code: only the released <crypt.h> from the system include path
+        else:
+            cmd += ['-I' + vinfo['include'], '-I' + HARNESS, '-I' + gen, '-I' + os.path.join(vinfo['repo'], 'lib')]
         for s in (srcs or [name + '.cpp']):
             cmd.append(os.path.join(HARNESS, s))
         for cs in (csrcs or []):
@@ -250,7 +253,8 @@ class Check:
     def binaries(self, vinfo):
         sp = self.spec
         kw = dict(interpose=sp.get('interpose', False), extra=sp.get('cxx_extra', ''),
-                  libs=sp.get('libs', '-lcrypto -lgcrypt -ldl -lpthread'), csrcs=sp.get('csrcs'))
+                  libs=sp.get('libs', '-lcrypto -lgcrypt -ldl -lpthread'), csrcs=sp.get('csrcs'),
+                  no_variant_include=sp.get('no_variant_include', False))
         b_rc = build_harness(sp['harness'], vinfo, rc=True, **kw)
         b_norc = build_harness(sp['harness'], vinfo, rc=False, **kw)
         return b_rc, b_norc
